@@ -233,6 +233,7 @@ fn claim(depth: u32) -> BoxedStrategy<ClaimSpec> {
     4 => (key(), native()).prop_map(|(k, v)| ClaimSpec::Native(k, v)),
     2 => (key(), gen::json_value(depth)).prop_map(|(k, v)| ClaimSpec::Any(k, v)),
     1 => gen::short_text().prop_map(|t| ClaimSpec::Iss(t.render())),
+    1 => (0u8..7).prop_map(ClaimSpec::DefaultOf),
     1 => gen::short_text().prop_map(|t| ClaimSpec::Sub(t.render())),
     1 => gen::short_text().prop_map(|t| ClaimSpec::Aud(t.render())),
     1 => gen::short_text().prop_map(|t| ClaimSpec::Jti(t.render())),
